@@ -250,16 +250,33 @@ def rand_group(rng, kind, nreq):
 # ======================================================================================================
 # registration protocol over histories of (re)loads: the proxy's managed-endpoint map as state
 # ======================================================================================================
-PROTO_POLICY = {   # abstract expression of ProxyMapI -> a policy endpoint
-    "e1": {"name": "d1", "m": ["GET"], "h": ["a", "com"], "p": ["x"], "remedy": "on", "diags": []},
-    "e2": {"name": "d2", "m": ["POST"], "h": ["a", "com"], "p": ["y", "*"], "remedy": "on", "diags": ["on", "off"]},
-    "e3": {"name": "d3", "m": ["GET"], "h": ["api", "a", "com"], "p": ["{id}"], "remedy": "off", "diags": ["off", "on"]},
+# abstract expression of ProxyMapI with n registrations -> a policy endpoint with n enabled plugins
+# (BuildHAProxyEndpointsRequest emits the endpoint's expression once per enabled remedy / diagnosis)
+PROTO_POLICY = {
+    "e1": {"name": "d1", "m": ["GET"], "h": ["a", "com"], "p": ["x"], 1: ("on", []), 2: ("on", ["on"])},
+    "e2": {"name": "d2", "m": ["POST"], "h": ["a", "com"], "p": ["y", "*"], 1: ("on", ["off"]), 2: ("on", ["on", "off"])},
+    "e3": {"name": "d3", "m": ["GET"], "h": ["api", "a", "com"], "p": ["{id}"], 1: ("off", ["off", "on"]), 2: ("off", ["on", "on"])},
 }
+# ... -> n flows sharing URL and methods (the further ones with a header constraint: separate filter groups,
+# the same expressions registered once per group)
 PROTO_FLOW = {
     "e1": {"name": "f1", "m": ["GET"], "h": ["a", "com"], "p": ["x"]},
     "e2": {"name": "f2", "m": [], "h": ["a", "com"], "p": ["y", "*"]},
     "e3": {"name": "f3", "m": ["GET", "POST"], "h": ["api", "a", "com"], "p": ["{id}"]},
 }
+
+
+def proto_items(e, n, mode):
+    if mode == "policy":
+        t = PROTO_POLICY[e]
+        return [{"name": t["name"], "m": t["m"], "h": t["h"], "p": t["p"], "remedy": t[n][0], "diags": list(t[n][1])}]
+    t = PROTO_FLOW[e]
+    res = [dict(t)]
+    for k in range(1, n):
+        res.append(dict(t, name="%sh%d" % (t["name"], k), hdr=[["x-tier", "t%d" % k]]))
+    return res
+
+
 PROTO_REQS = {
     "e1": {"m": "GET", "h": ["a", "com"], "p": ["x"], "var": ""},
     "e2": {"m": "POST", "h": ["a", "com"], "p": ["y", "7"], "var": ""},
@@ -274,13 +291,12 @@ def proto_enabled(it, mode):
 
 def history_of_walk(walk, mode):
     """a ProxyMapI walk (GenC14P) -> executor history; the model's proxy state per step is kept for the drift report"""
-    table = PROTO_POLICY if mode == "policy" else PROTO_FLOW
     steps = []
     for st in walk:
         if st["op"] == "drain":
             steps.append({"op": "drain"})
             continue
-        items = [dict(table[e]) for e in sorted(st["ex"])]
+        items = [it for e in sorted(st["ex"]) for it in proto_items(e, int(st["mult"][e]), mode)]
         step = {"op": "load", "immediate": bool(st["imm"]) and mode == "policy", "global": False, "items": items}
         if st["all"]:
             if mode == "policy":
@@ -318,14 +334,32 @@ def rand_history(rng, mode, T):
             pool.append(it)
     rapid = rng.random() < 0.25
     steps, cur = [], []
+    # flows: a twin of some items - same URL and methods, a header constraint: another filter group registering the
+    # SAME expressions; policies: the number of enabled plugins of a kept endpoint changes from load to load
+    twins = {it["name"]: dict(it, name=it["name"] + "h", hdr=[["x-tier", "gold"]]) for it in pool if mode == "flow" and rng.random() < 0.5}
     for k in range(rng.randint(3, 5 if not T else 6)):
+        revert = False
         if k == 0:
             cur = [it for it in pool if rng.random() < 0.6] or pool[:1]
+        elif mode == "policy" and rng.random() < 0.2:
+            revert = True         # the diagnosis fail-safe: the same endpoints without their diagnoses, unmanage immediately
         else:
-            cur = [it for it in cur if rng.random() < 0.7] + [it for it in pool if it not in cur and rng.random() < 0.35]
-        glob = rng.random() < 0.15
-        step = {"op": "load", "immediate": mode == "policy" and rng.random() < 0.2, "global": glob and mode == "policy",
-                "items": [dict(it) for it in cur] + ([dict(CATCH_ALL_FLOW)] if glob and mode == "flow" else [])}
+            cur = [it for it in cur if rng.random() < 0.75] + [it for it in pool if it not in cur and rng.random() < 0.35]
+        glob = rng.random() < 0.12 and not revert
+        items = []
+        for it in cur:
+            it2 = dict(it)
+            if mode == "policy":
+                if revert:
+                    it2["diags"] = []
+                elif rng.random() < 0.5:
+                    it2["remedy"] = rng.choice(["on", "on", "off", "none"])
+                    it2["diags"] = rng.choice(P_DIAGS + [["on"], ["on", "on"]])
+            items.append(it2)
+            if it["name"] in twins and rng.random() < 0.6:
+                items.append(dict(twins[it["name"]]))
+        step = {"op": "load", "immediate": mode == "policy" and (revert or rng.random() < 0.15), "global": glob and mode == "policy",
+                "items": items + ([dict(CATCH_ALL_FLOW)] if glob and mode == "flow" else [])}
         steps.append(step)
         if not rapid or rng.random() < 0.4:
             steps.append({"op": "drain"})
@@ -440,7 +474,7 @@ def proto_describe(h, ev, at):
         else:
             steps.append("load%s%s [%s]" % (" (unmanage immediately)" if st.get("immediate") else "", " +global" if st.get("global") else "",
                                             ", ".join("%s %s%s" % ("|".join(it["m"]) or "any", render(it["h"], it["p"]),
-                                                                   "" if h["mode"] == "flow" else " r=%s d=%s" % (it["remedy"], "/".join(it["diags"]) or "-"))
+                                                                   (" hdr" if it.get("hdr") else "") if h["mode"] == "flow" else " r=%s d=%s" % (it["remedy"], "/".join(it["diags"]) or "-"))
                                                       for it in st["items"])))
     nsteps = sum(1 for e in ev[:at + 1] if e["ev"] in ("load", "drain"))
     return {"mode": h["mode"], "history": steps, "after_step": nsteps,
@@ -453,8 +487,10 @@ def run_protocol(ctx, binary):
     sd = ctx.spec_dir(SPEC)
     # exhaustive: the model of the reload protocol keeps everything the current configuration needs managed
     ctx.tlc_exhaustive(sd, "ProxyMapI", "MC_proto.cfg", timeout=600, label="reload protocol (policies mode): I => NoBypass on the resulting proxy map", workers=4)
+    ctx.tlc_exhaustive(sd, "ProxyMapI", "MC_proto_mult.cfg", timeout=600, label="reload protocol, several registrations per expression: I => NoBypass", workers=4)
     ctx.tlc_exhaustive(sd, "ProxyMapI", "MC_proto_flow.cfg", timeout=600, label="reload protocol (flows mode): I => NoBypass on the resulting proxy map", workers=4)
-    for cfg, what in (("MC_proto_nv_ptr.cfg", "removal set by pointer difference"), ("MC_proto_nv_rapid.cfg", "rapid-reload class present")):
+    for cfg, what in (("MC_proto_nv_ptr.cfg", "removal set by pointer difference"), ("MC_proto_nv_rapid.cfg", "rapid-reload class present"),
+                      ("MC_proto_nv_mult.cfg", "removal set computed pairwise per registration")):
         r = ctx.tlc(sd, "ProxyMapI", cfg, timeout=300, label="non-vacuity: %s must be refuted" % what, workers=2)
         if r.violated is None:
             raise Broken("non-vacuity run %s was not refuted: %r" % (cfg, r))
